@@ -42,6 +42,9 @@ class Wire:
         self.ser = Serializer()
         self.ser.add_packer("flags", Flags())                           # as TunnelCommunity.get_serializer does
         self.ser.add_packer("node-list", ListOf(NodePacker(self.ser)))  # as DHTCommunity.get_serializer does
+        # byte order of the array count as registered by the Serializer ("H" = native, ">H" = network order)
+        self.arr_fmt = self.ser.get_packer_for("arrayH-q").length_format
+        self.arr_be = struct.pack(self.arr_fmt, 1) == b"\x00\x01"
         self._probes = {}
         self.defs = []
         self._def_ix = {}
@@ -183,9 +186,10 @@ class Wire:
 # valid encodings (inputs only) with the positions of their length prefixes
 # -------------------------------------------------------------------------------------------------
 class Gen:
-    def __init__(self, rng, keybin):
+    def __init__(self, rng, keybin, arr_fmt="H"):
         self.rng = rng
         self.keybin = keybin
+        self.arr_fmt = arr_fmt
 
     def rb(self, n):
         return bytes(self.rng.getrandbits(8) for _ in range(n))
@@ -212,7 +216,7 @@ class Gen:
             body = bytes(rng.randrange(2) for _ in range(cnt)) if n == "arrayH-?" else self.rb(cnt * 8)
             if n == "arrayH-d":
                 body = b"".join(struct.pack(">d", rng.uniform(-1e6, 1e6)) for _ in range(cnt))
-            return struct.pack("<H", cnt) + body     # DefaultArray uses the native "H"
+            return struct.pack(self.arr_fmt, cnt) + body
         if n in ("address", "ip_address"):
             t = rng.choice([1, 1, 3] if n == "ip_address" else [1, 2, 3])
             if t == 1:
